@@ -11,8 +11,13 @@ def run(ck, ctx):
         "On acceptance Output.format is evaluated abstractly with group_by_type False and True. O-final: exactly one entity, carrying "
         "exactly the marker key of its kind, with schema / name / base type / enum values in order / attributes / columns / "
         "authorization / comment / tablespace kind and temporary flag as written; grouped, it sits exactly once in the bucket of its "
-        "kind and the six documented buckets are present; the table reports the type names verbatim.")
+        "kind and the six documented buckets are present; the table reports the type names verbatim. E7 (O-line): a CREATE TYPE / "
+        "CREATE TABLESPACE written with one property per line (26 property lines: INPUT, OUTPUT, ANALYZE, STORAGE, DATAFILE, SIZE ...) is "
+        "handed to the grammar whole - no property line is skipped or taken for a new statement.")
     run_fragment(ck, ctx, "entities", tier=ck.tier)
+    # ---- E7: an entity written with one property per line reaches the grammar whole
+    from ..specs.lines import check_property_lines
+    check_property_lines(ck, ctx)
     ck.assumptions += ["words are separated as pre_process_data intends",
                        "the letter case of OBJECT / AUTHORIZATION / BIGFILE is explored as written in upper case only (outside the keyword "
                        "list of C05)", "CREATE DATABASE IF NOT EXISTS has no production and is outside `supported`"]
